@@ -43,7 +43,7 @@ use temporal_provider::prelude::*;
 use tzif::{
     self,
     data::{
-        posix::{DstTransitionInfo, PosixTzString, TransitionDay, ZoneVariantInfo},
+        posix::{DstTransitionInfo, PosixTzString, TransitionDate, TransitionDay, ZoneVariantInfo},
         time::Seconds,
         tzif::{DataBlock, LocalTimeTypeRecord, TzifData, TzifHeader},
     },
@@ -312,29 +312,17 @@ impl Tzif {
             _ => get_local_record(db, idx - 1),
         };
 
-        // The local value is skipped or repeated when it is between the two wall-clock
-        // readings of a transition.
-        for idx in first..last {
-            let initial_record = record_before(idx);
-            let next_record = get_local_record(db, idx);
-            let diff = seconds.0.saturating_sub(times[idx].0);
-            if offset_range(initial_record.utoff.0, next_record.utoff.0).contains(&diff) {
-                return if initial_record.utoff < next_record.utoff {
-                    Ok(LocalTimeRecordResult::Empty)
-                } else {
-                    Ok((next_record, initial_record).into())
-                };
-            }
+        if first == last {
+            return Ok(record_before(first).into());
         }
-
-        // Otherwise it is read with the offset of the latest transition it is not before.
-        for idx in (first..last).rev() {
-            let next_record = get_local_record(db, idx);
-            if seconds.0.saturating_sub(times[idx].0) >= next_record.utoff.0 {
-                return Ok(next_record.into());
-            }
-        }
-        Ok(record_before(first).into())
+        let changes: Vec<OffsetChange> = (first..last)
+            .map(|idx| OffsetChange {
+                epoch_seconds: times[idx].0,
+                before: record_before(idx).into(),
+                after: get_local_record(db, idx).into(),
+            })
+            .collect();
+        Ok(resolve_local_seconds(seconds.0, &changes))
     }
 }
 
@@ -356,98 +344,146 @@ fn get_local_record(db: &DataBlock, idx: usize) -> LocalTimeTypeRecord {
     db.local_time_type_records[db.transition_types.get(idx).copied().unwrap_or(0)]
 }
 
+/// A change of the UTC offset at a point of the exact timeline, either a transition of the
+/// table or one prescribed by the rule of the POSIX tz string for some year.
+#[derive(Debug, Clone, Copy)]
+struct OffsetChange {
+    /// The epoch seconds of the change.
+    epoch_seconds: i64,
+    /// The local time in force before the change.
+    before: LocalTimeRecord,
+    /// The local time in force from the change on.
+    after: LocalTimeRecord,
+}
+
+/// Decides a wall-clock value (epoch seconds without an offset applied) against the offset
+/// changes that can apply to it, given in ascending order.
+///
+/// Between the two wall-clock readings of a change the value is skipped (the offset grows)
+/// or repeated (the offset shrinks); otherwise it is read with the offset of the latest
+/// change it is not before.
+fn resolve_local_seconds(local_seconds: i64, changes: &[OffsetChange]) -> LocalTimeRecordResult {
+    for change in changes {
+        let diff = local_seconds.saturating_sub(change.epoch_seconds);
+        if offset_range(change.before.offset, change.after.offset).contains(&diff) {
+            return if change.before.offset < change.after.offset {
+                LocalTimeRecordResult::Empty
+            } else {
+                LocalTimeRecordResult::Ambiguous {
+                    std: change.after,
+                    dst: change.before,
+                }
+            };
+        }
+    }
+    for change in changes.iter().rev() {
+        if local_seconds.saturating_sub(change.epoch_seconds) >= change.after.offset {
+            return change.after.into();
+        }
+    }
+    changes
+        .first()
+        .map_or(LocalTimeRecordResult::Empty, |change| change.before.into())
+}
+
+/// The day of the year (counted from 0) on which a rule date of a POSIX tz string falls.
+fn rule_day_in_year(year: i32, day: &TransitionDay) -> i64 {
+    let leap_day = u16::from(utils::mathematical_days_in_year(year) == 366);
+    match *day {
+        // `Jn`: 1 <= n <= 365, February 29 is never counted.
+        TransitionDay::NoLeap(day) if day > 59 => i64::from(day - 1 + leap_day),
+        TransitionDay::NoLeap(day) => i64::from(day) - 1,
+        // `n`: 0 <= n <= 365, February 29 is counted.
+        TransitionDay::WithLeap(day) => i64::from(day),
+        // `Mm.w.d`: weekday d (0 is Sunday) of week w of month m, week 5 being the last one.
+        TransitionDay::Mwd(month, week, day) => {
+            let days_to_month = utils::month_to_day((month - 1) as u8, leap_day);
+            let days_in_month = u16::from(utils::iso_days_in_month(year, month as u8));
+            // The weekday of the first day of the month (the epoch was a Thursday).
+            let first_weekday =
+                (i64::from(utils::epoch_days_for_year(year)) + i64::from(days_to_month) + 4)
+                    .rem_euclid(7) as u16;
+            let mut day_of_month = (day + 7 - first_weekday) % 7 + (week - 1) * 7;
+            if day_of_month >= days_in_month {
+                day_of_month -= 7;
+            }
+            i64::from(days_to_month + day_of_month)
+        }
+    }
+}
+
+/// The two offset changes that the rule of a POSIX tz string prescribes for `year`.
+///
+/// A rule time is a wall-clock time of the local time in force before the change.
+fn rule_changes(
+    posix_tz_string: &PosixTzString,
+    dst_variant: &DstTransitionInfo,
+    year: i32,
+) -> [OffsetChange; 2] {
+    let std = LocalTimeRecord::from_standard_time(&posix_tz_string.std_info);
+    let dst = LocalTimeRecord::from_daylight_savings_time(&dst_variant.variant_info);
+    let year_epoch = i64::from(utils::epoch_days_for_year(year)) * 86_400;
+    let change =
+        |date: &TransitionDate, before: LocalTimeRecord, after: LocalTimeRecord| OffsetChange {
+            epoch_seconds: year_epoch + rule_day_in_year(year, &date.day) * 86_400 + date.time.0
+                - before.offset,
+            before,
+            after,
+        };
+    [
+        change(&dst_variant.start_date, std, dst),
+        change(&dst_variant.end_date, dst, std),
+    ]
+}
+
+/// The offset changes of the year of `seconds` and of its two neighbours, in ascending order.
+fn rule_changes_around(
+    posix_tz_string: &PosixTzString,
+    dst_variant: &DstTransitionInfo,
+    seconds: i64,
+) -> TemporalResult<Vec<OffsetChange>> {
+    let milliseconds = seconds
+        .checked_mul(1_000)
+        .ok_or(TemporalError::range().with_message("seconds are outside the supported range."))?;
+    let year = utils::epoch_time_to_epoch_year(milliseconds);
+    let mut changes: Vec<OffsetChange> = (year - 1..=year + 1)
+        .flat_map(|year| rule_changes(posix_tz_string, dst_variant, year))
+        .collect();
+    changes.sort_by_key(|change| change.epoch_seconds);
+    Ok(changes)
+}
+
+/// Resolve the footer of a tzif file for an exact time.
 #[inline]
 fn resolve_posix_tz_string_for_epoch_seconds(
     posix_tz_string: &PosixTzString,
     seconds: i64,
 ) -> TemporalResult<TimeZoneOffset> {
+    let std = LocalTimeRecord::from_standard_time(&posix_tz_string.std_info);
     let Some(dst_variant) = &posix_tz_string.dst_info else {
         // Regardless of the time, there is one variant and we can return it.
         return Ok(TimeZoneOffset {
             transition_epoch: None,
-            offset: LocalTimeRecord::from_standard_time(&posix_tz_string.std_info).offset,
+            offset: std.offset,
         });
     };
 
-    let start = &dst_variant.start_date;
-    let end = &dst_variant.end_date;
-
-    // TODO: Resolve safety issue around utils.
-    //   Using f64 is a hold over from early implementation days and should
-    //   be moved away from.
-
-    let (is_transition_day, transition) =
-        cmp_seconds_to_transitions(&start.day, &end.day, seconds)?;
-
-    let transition =
-        compute_tz_for_epoch_seconds(is_transition_day, transition, seconds, dst_variant);
-    let std_offset = LocalTimeRecord::from_standard_time(&posix_tz_string.std_info).offset;
-    let dst_offset = LocalTimeRecord::from_daylight_savings_time(&dst_variant.variant_info).offset;
-    let (old_offset, new_offset) = match transition {
-        TransitionType::Dst => (std_offset, dst_offset),
-        TransitionType::Std => (dst_offset, std_offset),
-    };
-    let transition = match transition {
-        TransitionType::Dst => start,
-        TransitionType::Std => end,
-    };
-    let year = utils::epoch_time_to_epoch_year(seconds * 1000);
-    let year_epoch = i64::from(utils::epoch_days_for_year(year)) * 86400;
-    let leap_day = utils::mathematical_in_leap_year(seconds * 1000) as u16;
-
-    let days = match transition.day {
-        TransitionDay::NoLeap(day) if day > 59 => day - 1 + leap_day,
-        TransitionDay::NoLeap(day) => day - 1,
-        TransitionDay::WithLeap(day) => day,
-        TransitionDay::Mwd(month, week, day) => {
-            let days_to_month = utils::month_to_day((month - 1) as u8, leap_day);
-            let days_in_month = u16::from(utils::iso_days_in_month(year, month as u8) - 1);
-
-            // Month starts in the day...
-            let day_offset = (u16::from(utils::epoch_seconds_to_day_of_week(year_epoch))
-                + days_to_month)
-                .rem_euclid(7);
-
-            // EXAMPLE:
-            //
-            // 0   1   2   3   4   5   6
-            // sun mon tue wed thu fri sat
-            // -   -   -   0   1   2   3
-            // 4   5   6   7   8   9   10
-            // 11  12  13  14  15  16  17
-            // 18  19  20  21  22  23  24
-            // 25  26  27  28  29  30  -
-            //
-            // The day_offset = 3, since the month starts on a wednesday.
-            //
-            // We're looking for the second friday of the month. Thus, since the month started before
-            // a friday, we need to start counting from week 0:
-            //
-            // day_of_month = (week - u16::from(day_offset <= day)) * 7 + day - day_offset = (2 - 1) * 7 + 5 - 3 = 9
-            //
-            // This works if the month started on a day before the day we want (day_offset <= day). However, if that's not the
-            // case, we need to start counting on week 1. For example, calculate the day of the month for the third monday
-            // of the month:
-            //
-            // day_of_month = (week - u16::from(day_offset <= day)) * 7 + day - day_offset = (3 - 0) * 7 + 1 - 3 = 19
-            let mut day_of_month = (week - u16::from(day_offset <= day)) * 7 + day - day_offset;
-
-            // If we're on week 5, we need to clamp to the last valid day.
-            if day_of_month > days_in_month - 1 {
-                day_of_month -= 7
-            }
-
-            days_to_month + day_of_month
-        }
-    };
-
-    // Transition time is on local time, so we need to add the UTC offset to get the correct UTC timestamp
-    // for the transition.
-    let transition_epoch = year_epoch + i64::from(days) * 86400 + transition.time.0 - old_offset;
-    Ok(TimeZoneOffset {
-        offset: new_offset,
-        transition_epoch: Some(transition_epoch),
-    })
+    // The latest change at or before the time decides.
+    let changes = rule_changes_around(posix_tz_string, dst_variant, seconds)?;
+    Ok(changes
+        .iter()
+        .rev()
+        .find(|change| change.epoch_seconds <= seconds)
+        .map_or(
+            TimeZoneOffset {
+                transition_epoch: None,
+                offset: std.offset,
+            },
+            |change| TimeZoneOffset {
+                transition_epoch: Some(change.epoch_seconds),
+                offset: change.after.offset,
+            },
+        ))
 }
 
 /// Resolve the footer of a tzif file.
@@ -458,160 +494,12 @@ fn resolve_posix_tz_string(
     posix_tz_string: &PosixTzString,
     seconds: i64,
 ) -> TemporalResult<LocalTimeRecordResult> {
-    let std = &posix_tz_string.std_info;
-    let Some(dst) = &posix_tz_string.dst_info else {
+    let Some(dst_variant) = &posix_tz_string.dst_info else {
         // Regardless of the time, there is one variant and we can return it.
         return Ok(LocalTimeRecord::from_standard_time(&posix_tz_string.std_info).into());
     };
-
-    // TODO: Resolve safety issue around utils.
-    //   Using f64 is a hold over from early implementation days and should
-    //   be moved away from.
-
-    // NOTE:
-    // STD -> DST == start
-    // DST -> STD == end
-    let (is_transition_day, is_dst) =
-        cmp_seconds_to_transitions(&dst.start_date.day, &dst.end_date.day, seconds)?;
-    if is_transition_day {
-        let time = utils::epoch_ms_to_ms_in_day(seconds * 1_000) as i64 / 1_000;
-        let transition_time = if is_dst == TransitionType::Dst {
-            dst.start_date.time.0
-        } else {
-            dst.end_date.time.0
-        };
-        let transition_diff = if is_dst == TransitionType::Dst {
-            std.offset.0 - dst.variant_info.offset.0
-        } else {
-            dst.variant_info.offset.0 - std.offset.0
-        };
-        let offset = offset_range(transition_time + transition_diff, transition_time);
-        match offset.contains(&time) {
-            true if is_dst == TransitionType::Dst => return Ok(LocalTimeRecordResult::Empty),
-            true => {
-                return Ok(LocalTimeRecordResult::Ambiguous {
-                    std: LocalTimeRecord::from_standard_time(std),
-                    dst: LocalTimeRecord::from_daylight_savings_time(&dst.variant_info),
-                })
-            }
-            _ => {}
-        }
-    }
-
-    match is_dst {
-        TransitionType::Dst => {
-            Ok(LocalTimeRecord::from_daylight_savings_time(&dst.variant_info).into())
-        }
-        TransitionType::Std => {
-            Ok(LocalTimeRecord::from_standard_time(&posix_tz_string.std_info).into())
-        }
-    }
-}
-
-fn compute_tz_for_epoch_seconds(
-    is_transition_day: bool,
-    transition: TransitionType,
-    seconds: i64,
-    dst_variant: &DstTransitionInfo,
-) -> TransitionType {
-    if is_transition_day && transition == TransitionType::Dst {
-        let time = utils::epoch_ms_to_ms_in_day(seconds * 1_000) / 1_000;
-        let transition_time = dst_variant.start_date.time.0 - dst_variant.variant_info.offset.0;
-        if i64::from(time) < transition_time {
-            return TransitionType::Std;
-        }
-    } else if is_transition_day {
-        let time = utils::epoch_ms_to_ms_in_day(seconds * 1_000) / 1_000;
-        let transition_time = dst_variant.end_date.time.0 - dst_variant.variant_info.offset.0;
-        if i64::from(time) < transition_time {
-            return TransitionType::Dst;
-        }
-    }
-
-    transition
-}
-
-/// The month, week of month, and day of week value built into the POSIX tz string.
-///
-/// For more information, see the [POSIX tz string docs](https://sourceware.org/glibc/manual/2.40/html_node/Proleptic-TZ.html)
-#[derive(Debug, Clone, Copy, PartialEq, Eq, PartialOrd, Ord)]
-struct Mwd(u16, u16, u16);
-
-impl Mwd {
-    fn from_seconds(seconds: i64) -> Self {
-        let month = utils::epoch_ms_to_month_in_year(seconds * 1_000) as u16;
-        let day_of_month = utils::epoch_seconds_to_day_of_month(seconds);
-        let week_of_month = day_of_month / 7 + 1;
-        let day_of_week = utils::epoch_seconds_to_day_of_week(seconds);
-        Self(month, week_of_month, u16::from(day_of_week))
-    }
-}
-
-fn cmp_seconds_to_transitions(
-    start: &TransitionDay,
-    end: &TransitionDay,
-    seconds: i64,
-) -> TemporalResult<(bool, TransitionType)> {
-    let cmp_result = match (start, end) {
-        (
-            TransitionDay::Mwd(start_month, start_week, start_day),
-            TransitionDay::Mwd(end_month, end_week, end_day),
-        ) => {
-            let mwd = Mwd::from_seconds(seconds);
-            let start = Mwd(*start_month, *start_week, *start_day);
-            let end = Mwd(*end_month, *end_week, *end_day);
-
-            let is_transition = start == mwd || end == mwd;
-            let is_dst = if start > end {
-                mwd < end || start <= mwd
-            } else {
-                start <= mwd && mwd < end
-            };
-
-            (is_transition, is_dst)
-        }
-        (TransitionDay::WithLeap(start), TransitionDay::WithLeap(end)) => {
-            let day_in_year = utils::epoch_time_to_day_in_year(seconds * 1_000) as u16;
-            let is_transition = *start == day_in_year || *end == day_in_year;
-            let is_dst = if start > end {
-                day_in_year < *end || *start <= day_in_year
-            } else {
-                *start <= day_in_year && day_in_year < *end
-            };
-            (is_transition, is_dst)
-        }
-        // TODO: do we need to modify the logic for leap years?
-        (TransitionDay::NoLeap(start), TransitionDay::NoLeap(end)) => {
-            let day_in_year = utils::epoch_time_to_day_in_year(seconds * 1_000) as u16;
-            let is_transition = *start == day_in_year || *end == day_in_year;
-            let is_dst = if start > end {
-                day_in_year < *end || *start <= day_in_year
-            } else {
-                *start <= day_in_year && day_in_year < *end
-            };
-            (is_transition, is_dst)
-        }
-        // NOTE: The assumption here is that mismatched day types on
-        // a POSIX string is an illformed string.
-        _ => {
-            return Err(
-                TemporalError::assert().with_message("Mismatched day types on a POSIX string.")
-            )
-        }
-    };
-
-    match cmp_result {
-        (true, dst) if dst => Ok((true, TransitionType::Dst)),
-        (true, _) => Ok((true, TransitionType::Std)),
-        (false, dst) if dst => Ok((false, TransitionType::Dst)),
-        (false, _) => Ok((false, TransitionType::Std)),
-    }
-}
-
-#[derive(Debug, Clone, Copy, PartialEq, Eq)]
-enum TransitionType {
-    Dst,
-    Std,
+    let changes = rule_changes_around(posix_tz_string, dst_variant, seconds)?;
+    Ok(resolve_local_seconds(seconds, &changes))
 }
 
 fn offset_range(offset_one: i64, offset_two: i64) -> core::ops::Range<i64> {
